@@ -20,7 +20,7 @@ var ghostBuiltins = map[string]bool{
 	"implies": true, "iff": true, "forall": true, "exists": true, "old": true, "has": true,
 	"lo": true, "hi": true, "at": true, "held": true, "typeIs": true, "gint": true, "allocated": true,
 	"sameArray": true, "refOf": true, "nonNil": true, "dynRef": true, "before": true,
-	"glen": true, "gentry": true, "gfield": true, "gfieldS": true, "mulGE": true, "ptrAt": true, "sliceRef": true, "elemAt": true, "smHas": true, "smIs": true, "smGet": true, "gclock": true, "chanRef": true, "timeNanos": true, "mapRef": true, "live": true, "gsHas": true, "gsCard": true, "gsOnly": true, "gsSame": true, "onceDone": true, "chanClosed": true, "same": true, "gsTagged": true, "gsOthersSameByType": true, "gsIsAdd": true, "gsIsRemove": true, "gsOthersSame": true,
+	"glen": true, "gentry": true, "gfield": true, "gfieldS": true, "mulGE": true, "ptrAt": true, "sliceRef": true, "elemAt": true, "smHas": true, "smIs": true, "smGet": true, "gclock": true, "chanRef": true, "timeNanos": true, "mapRef": true, "live": true, "gsHas": true, "gsCard": true, "gsOnly": true, "gsSame": true, "arrSame": true, "onceDone": true, "chanClosed": true, "same": true, "gsTagged": true, "gsOthersSameByType": true, "gsIsAdd": true, "gsIsRemove": true, "gsOthersSame": true,
 }
 
 func (x *Exec) isGhostBuiltin(fn *ssa.Function) bool {
@@ -497,6 +497,30 @@ func (x *Exec) ghost(name string, fn *ssa.Function, args []*Val, st *State, pos 
 		h := x.heapSym(st, "G|chanclosed", compInfo{sort: "(Array Int Bool)"})
 		x.keyInfo["G|chanclosed"] = compInfo{sort: "(Array Int Bool)"}
 		return scalar(boolT, sel(x.use(h), args[0].S), "Bool")
+	case "arrSame":
+		// two-state: the array ref (element type T) holds what it held in the old state, element by
+		// element (stated per component as an equality of whole arrays: no index quantifier)
+		if x.oldState == nil {
+			panic(unsupported("arrSame outside a two-state context"))
+		}
+		targs := fn.TypeArgs()
+		et := targs[len(targs)-1]
+		ref := args[0].S
+		if x.sc.bvMode {
+			x.sc.bridge[64] = true
+			ref = "(nat64 " + ref + ")"
+		}
+		var cs []string
+		for _, l := range x.leaves(et) {
+			key := "E|" + typeKey(et) + "|" + l.Path
+			ci := x.eInfo(l)
+			now := x.use(x.heapSym(st, key, ci))
+			was := x.use(x.heapSym(x.oldState, key, ci))
+			if now != was {
+				cs = append(cs, eq(sel(now, ref), sel(was, ref)))
+			}
+		}
+		return scalar(boolT, and(cs...), "Bool")
 	case "same":
 		// component-wise equality of two values of the same type (also for types Go cannot compare:
 		// a slice field is the same slice when it has the same array, offset, length and capacity)
